@@ -132,7 +132,7 @@ def run(ctx: Ctx):
     ctx.assume("dask execution model: a task runs on the values of its dependency keys; interleavings of the threaded scheduler are sampled, not explored (schedule exploration is a different family)")
     ctx.na_subclaims.append("exploration of all interleavings of the multi-threaded scheduler: not decidable by per-function contracts; covered only through the purity obligations of C13")
     ctx.trust("dask schedulers", "dask.array.reductions._tree_reduce", "dask cumreduction(method='blelloch')", "z3 / cvc5")
-    return "other", ("Mixed: tree-builder, associativity and purity obligations are proved on the real source; order/scheduler independence of whole graphs is a bounded stand-in. " + note)
+    return "other", ("Mixed: the scan operator's obligations are proved on the real source; the tree builder's contract is bounded (exhaustive up to the stated size), and order/scheduler independence of whole graphs is a bounded stand-in. " + note)
 
 
 def _case_of(payload):
